@@ -1,17 +1,9 @@
 import QmcModel.Proto
 import QmcModel.Stepper
-open Qmc Qmc.Proto
+open Qmc Qmc.Proto Qmc.MockIO
 
 /-! Driver for C17: runs the model (`measureLoop`, `chunkRun`, `itimeStates`) on the inputs of
 harness/src/bin/c17.rs and renders the same observable tokens. -/
-
-def nanOr (r : Option Rat) : String :=
-  match r with
-  | some x => showApprox x
-  | none => "nan"
-
-def scriptN (ns : List Nat) (age : Nat) : Nat :=
-  if age = 0 || ns.isEmpty then 0 else ns.getD ((age - 1) % ns.length) 0
 
 def stepChar (sRead nRead : Bool) : Char :=
   match sRead, nRead with
@@ -42,50 +34,6 @@ def doMeasure (variant : String) (T : Nat) (fTok : String) (β off : Rat) (ns : 
   let avg : Option Rat := if r.measured = 0 then none else some ((r.totalN : Rat) / (r.measured : Rat))
   s!"{String.ofList log}E {calls} {r.st} {nanOr avg} {nanOr (measureEnergy β off r)}"
 
-/-! tempering -/
-
-structure Rep where
-  gid : Nat
-  age : Nat
-  deriving Repr, BEq
-
-def bitsOf (width v : Nat) : List Bool := (List.range width).reverse.map fun b => v.testBit b
-def ofBits (bs : List Bool) : Nat := bs.foldl (fun a b => a * 2 + (if b then 1 else 0)) 0
-
-def encRep (r : Rep) : List Bool := bitsOf 4 r.gid ++ bitsOf 12 r.age
-def decRep (s : List Bool) : Rep := { gid := ofBits (s.take 4), age := ofBits (s.drop 4) }
-def showRep (r : Rep) : String := s!"{r.gid}.{r.age}"
-
-def swapAt (rs : List Rep) (a b : Nat) : List Rep :=
-  match rs[a]?, rs[b]? with
-  | some x, some y => (rs.set a y).set b x
-  | _, _ => rs
-
-abbrev SwapScript := List (List (Nat × Nat))
-
-def mockSys (nss : List (List Nat)) (βs offs : List Rat) : ReplicaSys Rep SwapScript :=
-  { step := fun r => { r with age := r.age + 1 }
-    n := fun r => scriptN (nss.getD (r.gid % nss.length) []) r.age
-    state := encRep
-    energy := fun i a => energyForAvgN (βs.getD i 1) (offs.getD i 0) a
-    swap := fun c =>
-      match c.2 with
-      | [] => c
-      | sw :: rest => (sw.foldl (fun rs p => swapAt rs p.1 p.2) c.1, rest) }
-
-def parseSwapScript (s : String) : SwapScript :=
-  if s == "-" then [] else
-  (s.splitOn ";").map fun step =>
-    if step == "_" then [] else
-    (step.splitOn ".").filterMap fun pr =>
-      match pr.splitOn "-" with
-      | [a, b] => some (parseNat a, parseNat b)
-      | _ => none
-
-/-- a schedule for the model of the parallel driver: round robin from the last slot down -/
-def revRoundRobin (t : Nat) (c : List Rep × SwapScript) : List Nat :=
-  (List.range t).flatMap fun _ => (List.range c.1.length).reverse
-
 def renderLog (showW : Bool) (log : List Ev) : String :=
   let s := String.join (log.map fun e =>
     match e with
@@ -110,9 +58,6 @@ def doTemper (par : Bool) (T s f nrep : Nat) (βs offs : List Rat) (nss : List (
   let fin := showList showRep x.c.1
   let left := if x.c.2.isEmpty then "" else " LEFT"
   String.intercalate " " (perSlot ++ [fin]) ++ left
-
-def parseNss (s : String) : List (List Nat) :=
-  if s == "-" then [] else (s.splitOn ",").map fun t => (t.splitOn ".").map parseNat
 
 def doIsingM (T f : Nat) (β off : Rat) (nseq : List Nat) : String :=
   let r := measureLoop (· + 1) (fun a => if a = 0 then 0 else nseq.getD (a - 1) 0) (pushFold id) T f 0 []
